@@ -2,7 +2,8 @@
      pgpy/packet/fields.py  String2Key.parse/__bytearray__, PrivKey.encrypt_keyblob / decrypt_keyblob / clear,
                             the per-algorithm secret layouts (RSAPriv d,p,q,u; DSAPriv/ElGPriv x; ECDSAPriv/EdDSAPriv/ECDHPriv s),
      pgpy/packet/packets.py PrivKeyV4.protected / unlocked / protect / unprotect,
-     pgpy/pgp.py            PGPKey.protect, PGPKey.unlock (context manager with finally-clear), is_protected, is_unlocked,
+     pgpy/pgp.py            PGPKey.protect, PGPKey.unlock (context manager; entry loop and finally-clear pass over key material
+                            that is not protected), PGPKey.add_subkey (attachment only), is_protected, is_unlocked,
      pgpy/decorators.py     KeyAction.check_attributes (is_unlocked gate of sign / decrypt).
    The primitives (CFB encryption, SHA-1, the S2K key derivation) are Section variables; in the extracted
    program they are closures answered by the primitive oracle (cryptography / hashlib called directly by the
@@ -52,7 +53,13 @@ Definition s2k_emit_std (b : sblob) : bytes :=
   ++ (if b_spec b =? 3 then [b_count b] else [])
   ++ b_iv b.
 Definition gnu_magic : bytes := [0; 71; 78; 85].
+(* String2Key._experimental_bytearray (since repair 05bf06b): the divert-to-card mode (extension 2) writes the length octet of
+   the serial number also when the serial is empty -- parsing always reads it; extension 1 has no serial *)
 Definition s2k_emit_gnu (usage alg ext : Z) (serial : bytes) : bytes :=
+  [usage; alg; 101] ++ gnu_magic ++ [ext]
+  ++ (if ext =? 2 then [Z.of_nat (length serial)] ++ serial else []).
+(* the rule before 05bf06b: length octet only for a non-empty serial (kept for the _old_refuted statement) *)
+Definition s2k_emit_gnu_old (usage alg ext : Z) (serial : bytes) : bytes :=
   [usage; alg; 101] ++ gnu_magic ++ [ext]
   ++ (match serial with [] => [] | _ => [Z.of_nat (length serial)] ++ serial end).
 Definition blob_emit (bl : blob) : bytes :=
@@ -190,21 +197,29 @@ Section Prims.
     {| p_blob := Some (BStd (mk_sblob 254 alg 3 halg (snd ivsalt) count (fst ivsalt) pass (p_fields c)));
        p_fields := zeros (p_fields c); p_chk := p_chk c |}.
 
+  (* ciphers PrivKey.encrypt_keyblob can encrypt with: Plaintext (0) has no cipher (NotImplementedError from gen_iv, before
+     any draw), IDEA (1) is refused as insecure and Twofish256 (10) has no backend (both raised by _encrypt, after the IV and
+     salt were drawn).  Since repair a3ce830 the new S2K specifier is built on the side and installed together with the
+     ciphertext only after _encrypt succeeded: a refused protect leaves the packet exactly as it was. *)
+  Definition can_encrypt (alg : Z) : bool :=
+    ((2 <=? alg) && (alg <=? 4)) || ((7 <=? alg) && (alg <=? 9)) || ((11 <=? alg) && (alg <=? 13)).
+
   Fixpoint protect_pkts (pass : bytes) (alg halg count : Z) (rnd : list (bytes * bytes)) (l : list pkt) : list pkt :=
     match l with
     | [] => []
     | c :: r => protect_pkt pass alg halg count (hd ([], []) rnd) c :: protect_pkts pass alg halg count (tl rnd) r
     end.
 
-  (* the try-block of PGPKey.unlock: unprotect the primary, then every subkey, in order.
-     inl kind = an exception left the loop (1 = PGPDecryptionError, 2 = anything else, e.g. TypeError for an
-     unprotected subkey under a protected primary, NotImplementedError for a GNU dummy) *)
+  (* the try-block of PGPKey.unlock: unprotect the primary, then every subkey, in order; since repair e967622 key material
+     that is not protected (e.g. a subkey attached with add_subkey while the key was unlocked) is passed over.
+     inl kind = an exception left the loop (1 = PGPDecryptionError, 2 = anything else, e.g. NotImplementedError for a
+     GNU dummy) *)
   Fixpoint enter_pkts (pass : bytes) (l : list pkt) : Z + list pkt :=
     match l with
     | [] => inr []
     | c :: r =>
       match p_blob c with
-      | None => inl 2
+      | None => match enter_pkts pass r with inr r' => inr (c :: r') | inl k => inl k end
       | Some bl =>
         match unprotect_blob (length (p_fields c)) bl pass with
         | UOk ms _ =>
@@ -230,7 +245,8 @@ Section Prims.
   | OSign (i : nat)                (* key.sign(..) carried out by packet i *)
   | ODecrypt (i : nat)             (* key.decrypt(..) carried out by packet i *)
   | OExport
-  | OReimport.                     (* key := PGPKey.from_blob(bytes(key)) *)
+  | OReimport                      (* key := PGPKey.from_blob(bytes(key)) *)
+  | OAddSub (ms : list Z) (chk : bytes).   (* key.add_subkey(sub): sub is a fresh unprotected key with secret integers ms *)
 
   Inductive obs :=
   | BDone | BWarned | BRaised (kind : Z) | BNoScope
@@ -238,11 +254,13 @@ Section Prims.
   | BRefused                       (* PGPError from KeyAction.check_attributes *)
   | BExported (parts : list bytes).
 
+  (* (a) one round of the finally-block of PGPKey.unlock since repair e967622: `if sk.is_protected: sk._key.keymaterial.clear()`
+     -- key material that is not protected has no ciphertext to recover it from and is left alone;
+     (b) parse of an exported packet: a protected packet comes back with zero fields *)
+  Definition relock (c : pkt) : pkt := if protected c then clear c else c.
+
   Definition primary_protected (k : list pkt) : bool := match k with c :: _ => protected c | [] => false end.
   Definition primary_unlocked (k : list pkt) : bool := match k with c :: _ => unlocked_flag c | [] => true end.
-
-  (* parse of an exported packet: a protected packet comes back with zero fields *)
-  Definition relock (c : pkt) : pkt := if protected c then clear c else c.
 
   (* KeyAction.check_attributes looks at the key the method was called on (the primary); PGPKey.decrypt then
      re-dispatches to the subkey object, whose own decorator checks that subkey as well (check_sub = true) *)
@@ -259,23 +277,29 @@ Section Prims.
     match o with
     | OProtect pass alg halg count rnd =>
       if primary_protected k && negb (primary_unlocked k) then (st, BWarned)
-      else ({| k_pkts := protect_pkts pass alg halg count rnd k; k_scopes := k_scopes st |}, BDone)
+      else if can_encrypt alg then ({| k_pkts := protect_pkts pass alg halg count rnd k; k_scopes := k_scopes st |}, BDone)
+      else (st, BRaised 2)         (* refused by the first packet: nothing installed, nothing cleared *)
     | OEnter pass =>
       if negb (primary_protected k) then ({| k_pkts := k; k_scopes := false :: k_scopes st |}, BWarned)
       else match enter_pkts pass k with
            | inr k' => ({| k_pkts := k'; k_scopes := true :: k_scopes st |}, BDone)
-           | inl kind => ({| k_pkts := map clear k; k_scopes := k_scopes st |}, BRaised kind)
+           | inl kind => ({| k_pkts := map relock k; k_scopes := k_scopes st |}, BRaised kind)
            end
     | OExit | ORaiseInScope =>
       match k_scopes st with
       | [] => (st, BNoScope)
-      | true :: s => ({| k_pkts := map clear k; k_scopes := s |}, BDone)
+      | true :: s => ({| k_pkts := map relock k; k_scopes := s |}, BDone)
       | false :: s => ({| k_pkts := k; k_scopes := s |}, BDone)
       end
     | OSign i => private_op st false i
     | ODecrypt i => private_op st true i
     | OExport => (st, BExported (map export_secret k))
     | OReimport => ({| k_pkts := map relock k; k_scopes := [] |}, BDone)
+    | OAddSub ms chk =>
+      (* PGPKey.add_subkey attaches the subkey BEFORE self.bind (a KeyAction with is_unlocked=True) may refuse: the packet is
+         appended in both cases; the new key material is unprotected whatever the state of the primary *)
+      ({| k_pkts := k ++ [{| p_blob := None; p_fields := ms; p_chk := chk |}]; k_scopes := k_scopes st |},
+       if primary_unlocked k then BDone else BRefused)
     end.
 
   Definition run (ops : list op) (st : kst) : kst := fold_left (fun s o => fst (step s o)) ops st.
@@ -333,12 +357,13 @@ Section Prims.
                 :: protect_syms pass alg halg count (tl rnd) r
     end.
 
-  (* ghost step: how the symbolic origins evolve (only protect creates a new at-rest form) *)
+  (* ghost step: how the symbolic origins evolve (only protect creates a new at-rest form; add_subkey brings a clear-text one) *)
   Definition step_sym (st : kst) (syms : list sym) (o : op) : list sym :=
     match o with
     | OProtect pass alg halg count rnd =>
       if primary_protected (k_pkts st) && negb (primary_unlocked (k_pkts st)) then syms
-      else protect_syms pass alg halg count rnd (k_pkts st)
+      else if can_encrypt alg then protect_syms pass alg halg count rnd (k_pkts st) else syms
+    | OAddSub ms chk => syms ++ [sym_of_pkt {| p_blob := None; p_fields := ms; p_chk := chk |}]
     | _ => syms
     end.
 
